@@ -59,6 +59,8 @@ class Sim:
         self.internal = [m for r in range(self.L) for m in self._sets(r)]
         self.leaves = list(self._sets(self.L))
         self.iter = 0
+        self.ckpt_dirs: list = []
+        self.checkpoints: list = []
 
     def _sets(self, r: int):
         for c in itertools.combinations(range(self.noc), r):
@@ -204,6 +206,21 @@ class Sim:
         if not res.failures:
             self.averages(res, where + " (after)", self._probe_nodes())
 
+    def check_checkpoints(self, res: Result, where: str) -> None:
+        """A checkpoint is a value: loading it again returns what was saved, no matter what loaded copies did since."""
+        np = self.np
+        for path, it, reg, strat in self.checkpoints:
+            again = self.cls.load(path)
+            if again.iteration != it or not np.array_equal(np.asarray(again.cumulative_regret), reg) \
+                    or not np.array_equal(np.asarray(again.cumulative_strategy), strat):
+                res.fail(f"checkpoint-changed-on-disk :: {where}: loading {path.name} again no longer returns the saved minimiser "
+                         f"(saved at iteration {it}); nobody called save() in between")
+                return
+
+    def close(self) -> None:
+        for d in self.ckpt_dirs:
+            shutil.rmtree(d, ignore_errors=True)
+
     def _probe_nodes(self):
         if len(self.internal) <= 64:
             return self.internal
@@ -213,11 +230,11 @@ class Sim:
     def save_load(self, res: Result, where: str) -> None:
         np = self.np
         d = Path(tempfile.mkdtemp(prefix="vp-c14-"))
-        try:
-            self.rm.save(d / "rm")
-            loaded = self.cls.load(d / "rm")
-        finally:
-            shutil.rmtree(d, ignore_errors=True)
+        self.ckpt_dirs.append(d)
+        self.rm.save(d / "rm")
+        loaded = self.cls.load(d / "rm")
+        # remember what was saved: loading the same directory later must give exactly this, whatever the copies do meanwhile
+        self.checkpoints.append((d / "rm", self.rm.iteration, self.rm.cumulative_regret.copy(), self.rm.cumulative_strategy.copy()))
         a, b = self.rm, loaded
         same = (a.iteration == b.iteration and a.plus == b.plus and a.number_of_players == b.number_of_players
                 and a.limit_of_revealed == b.limit_of_revealed and a.cumulative_regret.dtype == b.cumulative_regret.dtype
@@ -265,9 +282,12 @@ def check_case(case: dict) -> Result:
             if not (np.array_equal(shadow.cumulative_regret, sim.rm.cumulative_regret)
                     and np.array_equal(shadow.cumulative_strategy, sim.rm.cumulative_strategy) and shadow.iteration == sim.rm.iteration):
                 res.fail(f"save-load-continue :: n={n} limit={limit} plus={plus}: after iteration {i + 1} the loaded minimiser differs from the one that was never saved")
+        if not res.failures:
+            sim.check_checkpoints(res, f"n={n} limit={limit} plus={plus} after iteration {i + 1}")
         if it.get("save") and not res.failures:
             sim.save_load(res, f"n={n} limit={limit} plus={plus} after iteration {i + 1}")
             shadow = sim.shadow
+    sim.close()
     res.nontrivial = limit < sim.noc - 1 or nonuniform >= 2
     res.label(f"n={n}", f"limit={limit}", f"plus={plus}", f"iterations={len(case['iterations'])}")
     if limit < sim.noc - 1:
@@ -316,5 +336,6 @@ def run_shard(spec: dict, ctx: Ctx) -> None:
     for j, (n, limit) in enumerate(spec["configs"]):
         for plus in (False, True):
             per = spec["histories"] if not (n == 5 and limit >= 3) else max(1, spec["histories"] // 3)
-            ctx.run_given(histories(n, limit, plus), check_case, per, shrink=(n < 5), sub_seed=j * 2 + int(plus))
+            # shrinking re-runs whole iteration histories: affordable only for small trees (the unshrunk case is kept otherwise)
+            ctx.run_given(histories(n, limit, plus), check_case, per, shrink=(n == 3 or (n == 4 and limit <= 3)), sub_seed=j * 2 + int(plus))
     ctx.extra["exhaustive_parts"] = [f"configurations (n, limit) {spec['configs']} x plain/plus all visited (histories generated)"]
